@@ -10,14 +10,17 @@ pub struct GenOpts {
     pub objects: usize,
     pub timing_lines: usize,
     pub integer_times: bool,
+    /// also produce the two shapes recorded as known findings (a `//` inside a file name; a slider without a requested
+    /// length whose natural length exceeds the decoder's limit)
+    pub known_shapes: bool,
 }
 
 impl GenOpts {
     pub fn c02() -> Self {
-        GenOpts { chronological: true, hostile: false, mode: None, objects: 12, timing_lines: 8, integer_times: false }
+        GenOpts { chronological: true, hostile: false, mode: None, objects: 12, timing_lines: 8, integer_times: false, known_shapes: false }
     }
     pub fn hostile() -> Self {
-        GenOpts { chronological: false, hostile: true, mode: None, objects: 12, timing_lines: 8, integer_times: false }
+        GenOpts { chronological: false, hostile: true, mode: None, objects: 12, timing_lines: 8, integer_times: false, known_shapes: false }
     }
 }
 
@@ -82,7 +85,11 @@ pub fn gen_map(rng: &mut Rng, o: &GenOpts) -> String {
     let mut s = String::new();
     let version = *rng.pick(&[14, 14, 14, 3, 5, 7, 8, 9, 10, 12, 128]);
     s.push_str(&format!("osu file format v{version}\n\n[General]\n"));
-    s.push_str(&format!("AudioFilename: {}\n", rng.pick(&["audio.mp3", "a b.ogg", "dir\\file.mp3", "x.mp3"])));
+    if o.known_shapes && rng.chance(1, 12) {
+        s.push_str("AudioFilename: dir\\\\song.mp3\n");
+    } else {
+        s.push_str(&format!("AudioFilename: {}\n", rng.pick(&["audio.mp3", "a b.ogg", "dir\\file.mp3", "x.mp3"])));
+    }
     s.push_str(&format!("AudioLeadIn: {}\n", num(rng, h, &["0", "500", "2000"])));
     s.push_str(&format!("PreviewTime: {}\n", num(rng, h, &["-1", "1234", "60000"])));
     s.push_str(&format!("Countdown: {}\n", rng.pick(&["0", "1", "2", "3"])));
@@ -133,7 +140,11 @@ pub fn gen_map(rng: &mut Rng, o: &GenOpts) -> String {
     s.push_str(&format!("SliderMultiplier:{sm}\nSliderTickRate:{}\n", rng.pick(&["1", "2", "0.5", "4", "9", "0.1"])));
     s.push_str("\n[Events]\n//Background and Video events\n");
     if rng.chance(2, 3) {
-        s.push_str(&format!("0,0,\"{}\",0,0\n", rng.pick(&["bg.jpg", "b g.png", "dir\\bg.jpg", "a.JPG"])));
+        if o.known_shapes && rng.chance(1, 12) {
+            s.push_str("0,0,\"a\\/b.jpg\",0,0\n");
+        } else {
+            s.push_str(&format!("0,0,\"{}\",0,0\n", rng.pick(&["bg.jpg", "b g.png", "dir\\bg.jpg", "a.JPG"])));
+        }
     }
     if rng.chance(1, 3) {
         s.push_str(&format!("Video,0,\"{}\"\n", rng.pick(&["v.mp4", "img.png", "V.AVI"])));
@@ -206,7 +217,11 @@ pub fn gen_map(rng: &mut Rng, o: &GenOpts) -> String {
             2 => {
                 let rep = *rng.pick(&[1, 1, 2, 3]);
                 let len = num(rng, h, &["100", "140.5", "35", "250.75", "0", "60.0000009536743"]);
-                let mut l = format!("{x},{y},{ot},{},{snd},{},{rep},{len}", 2 + nc, path_string(rng, h, x, y));
+                let mut l = if o.known_shapes && rng.chance(1, 30) {
+                    format!("{x},{y},{ot},{},{snd},L|{}:{},{rep},0", 2 + nc, *rng.pick(&[131072, -131072, 100000]), *rng.pick(&[131072, 90000]))
+                } else {
+                    format!("{x},{y},{ot},{},{snd},{},{rep},{len}", 2 + nc, path_string(rng, h, x, y))
+                };
                 if rng.chance(1, 2) {
                     let ns: Vec<String> = (0..=rep).map(|_| rng.pick(&["0", "2", "4", "8", "10"]).to_string()).collect();
                     let nb: Vec<String> = (0..=rep).map(|_| format!("{}:{}", rng.below(4), rng.below(4))).collect();
